@@ -47,15 +47,16 @@ fn bits(v: &[bool]) -> String {
 }
 
 fn arr8_ops<const N: usize>(a: &[u8], b: &[u8]) -> Result<String, String> {
-    let a: [u8; N] = arr(a)?;
-    let b: [u8; N] = arr(b)?;
+    // the arrays are used where the argument parser placed them (an `@k:` prefix chooses the address offset): no copy
+    let a: &[u8; N] = <&[u8; N]>::try_from(a).map_err(|_| format!("need-{}-bytes", N))?;
+    let b: &[u8; N] = <&[u8; N]>::try_from(b).map_err(|_| format!("need-{}-bytes", N))?;
     Ok(bits(&[
-        (&a).ct_zero().is_true(),
-        (&a).ct_nonzero().is_true(),
-        (&a).ct_eq(&b).is_true(),
-        (&a).ct_ne(&b).is_true(),
-        <&[u8; N]>::ct_lt(&a, &b).is_true(),
-        <&[u8; N]>::ct_ge(&a, &b).is_true(),
+        a.ct_zero().is_true(),
+        a.ct_nonzero().is_true(),
+        a.ct_eq(b).is_true(),
+        a.ct_ne(b).is_true(),
+        <&[u8; N]>::ct_lt(a, b).is_true(),
+        <&[u8; N]>::ct_ge(a, b).is_true(),
     ]))
 }
 
